@@ -19,6 +19,18 @@ Theorem c01_for_of_code_has_the_ecmascript_meaning :
 Proof. exact cforof_correct. Qed.
 Print Assumptions c01_for_of_code_has_the_ecmascript_meaning.
 
+(* The same for for-in over the keys iterator, which has no handler and is never closed. *)
+Theorem c01_for_in_code_has_the_ecmascript_meaning :
+  forall (V : Type) (undef : V) (body : V -> outcome) (code : list op) (p : nat) (F : list (frame V)) (T : nat),
+  code_at code p (cforin p) ->
+  forall (it : list V) (r : res V) (e : V) (nid : nat) (l : list (nat * option V)) (n : nat),
+  exists k it' r' e',
+    run V undef body T code k (mk V p it r e F nid T l n false) =
+    Some (let '(L, N, C, nid') := spec_in V body it nid in
+          mk V (8 + p) it' r' e' F nid' T (l ++ L) (n + N) C).
+Proof. exact cforin_correct. Qed.
+Print Assumptions c01_for_in_code_has_the_ecmascript_meaning.
+
 (* That meaning in closed form: the body sees the values up to and including the first it breaks on,
    each bound in an environment created for that execution (consecutive fresh identities); next() is
    called once per value seen, once more if the loop ran to the end; the iterator is closed exactly
